@@ -70,9 +70,11 @@ func parsers() []parser {
 			return l, nil, l
 		}},
 		{"AtomicLevel.UnmarshalText", func(t string) (zapcore.Level, error, zapcore.Level) {
+			// the target is what the rest of the program holds: a copy made earlier (a core's enabler)
 			a := zap.NewAtomicLevelAt(sentinel)
+			held := a
 			err := a.UnmarshalText([]byte(t))
-			return a.Level(), err, a.Level()
+			return a.Level(), err, held.Level()
 		}},
 		{"ParseAtomicLevel", func(t string) (zapcore.Level, error, zapcore.Level) {
 			a, err := zap.ParseAtomicLevel(t)
@@ -89,9 +91,10 @@ func parsers() []parser {
 		}},
 		{"json.Unmarshal(struct{AtomicLevel})", func(t string) (zapcore.Level, error, zapcore.Level) {
 			v := struct{ L zap.AtomicLevel }{zap.NewAtomicLevelAt(sentinel)}
+			held := v.L
 			b, _ := json.Marshal(map[string]string{"L": t})
 			err := json.Unmarshal(b, &v)
-			return v.L.Level(), err, v.L.Level()
+			return v.L.Level(), err, held.Level()
 		}},
 		{"yaml.Unmarshal(*Level)", func(t string) (zapcore.Level, error, zapcore.Level) {
 			l := sentinel
@@ -170,6 +173,8 @@ func texts(r *ev.Run) {
 			case ok:
 				if err != nil || got != want {
 					r.Violate(ev.Violation{Case: id, Class: "parse-valid", Msg: fmt.Sprintf("%s(%q) = (%v, %v), want level %d", p.name, text, got, err, want)})
+				} else if after != want {
+					r.Violate(ev.Violation{Case: id, Class: "parse-target-not-set", Msg: fmt.Sprintf("%s(%q) succeeded with level %d, but the target as held elsewhere in the program (a copy of the AtomicLevel made before) reads %d: the requested level was not set", p.name, text, got, after)})
 				}
 			default:
 				if err == nil {
